@@ -114,7 +114,7 @@ def parseKey (s : String) : Option KeyField :=
   if s = "n" then some .none else if s = "x" then some .invalid else s.toNat?.map .id
 
 /-- `raw <c> <typ> <key> <hdrhex> <tok>` -/
-def parseRaw (_cfg : Cfg Tok) (s : String) : Option SOp :=
+def parseRaw (_cfg : Cfg Tok) (s : String) : Option (SOp Tok) :=
   match tokens s with
   | ["raw", c, typ, key, hdr, tok] => do
     let hdrBytes ← bytesOfHex hdr
